@@ -254,6 +254,8 @@ func checkC17(c *Ctx, r *Report) {
 				switch {
 				case strings.Contains(strings.ToLower(raw), "avp"):
 					r.viol("C17.R1", key+"|tag syntax", c.rel(f.Pos()), fmt.Sprintf("the struct tag %q mentions avp but is not of the form avp:\"Name\" that reflect.StructTag and go-diameter's parseAvpTag resolve (a blank after the colon, a missing quote, ...): Marshal leaves the member out and Unmarshal never fills it, without an error - what was sent in it is not received", raw))
+				case f.Embedded() && c17HasAvpMembers(f.Type()):
+					r.viol("C17.R1", key+"|embedded", c.rel(f.Pos()), "the struct embeds "+types.TypeString(f.Type(), func(p *types.Package) string { return p.Name() })+" without an avp tag: go-diameter does not flatten embedded structs, so the AVP members of the embedded type are left out by Marshal and never filled by Unmarshal, without an error - what was sent in them is not received")
 				case f.Exported() && c17FieldAssigned(c, tn, i):
 					r.viol("C17.R1", key+"|no tag", c.rel(f.Pos()), "the member is assigned by the module but has no avp tag: Marshal leaves it out and Unmarshal never fills it, without an error - what was sent in it is not received")
 				case f.Exported():
@@ -646,4 +648,21 @@ func c17FieldAssigned(c *Ctx, tn *types.TypeName, i int) bool {
 		})
 	}
 	return found
+}
+
+// c17HasAvpMembers: t (or the struct it points to) has members with avp tags.
+func c17HasAvpMembers(t types.Type) bool {
+	if p, ok := t.Underlying().(*types.Pointer); ok {
+		t = p.Elem()
+	}
+	st, ok := t.Underlying().(*types.Struct)
+	if !ok {
+		return false
+	}
+	for i := 0; i < st.NumFields(); i++ {
+		if parseAvpTagName(reflect.StructTag(st.Tag(i))) != "" {
+			return true
+		}
+	}
+	return false
 }
